@@ -11,6 +11,8 @@ Vocabulary (PcProofs/PsCoreCross.lean): `numOf L p` = the number of global bit `
 byte of `q·u` = `m`); `Hit M q L u u' p` = "bit `p` is a multiple `q·t` with `u ≤ t < u'`, `t` coprime to `M`".
 -/
 import PcProofs.PsCoreExtract
+import PcProofs.PsCoreMedium
+import PcProofs.PsCoreCount
 
 namespace Pc.C18Core
 open Pc.PsCore Pc.PsWheelSpec
@@ -88,6 +90,25 @@ theorem carry_over_medium (q L n : ℕ) (hL : 30 ∣ L) (hq : 30 ≤ q) (hq25 : 
       (crossPrime Gen.psMediumTab false 0 n p s).2.size = s.size :=
   medium_prime_segment q L n hL hq hq25 hn p u hp hsp s
 
+/-- **EratMedium on a whole segment, all stored primes** (`EratMedium::crossOff`; array of at most `2^23` bytes).  `gs` is the ghost
+    list `(q, u)` of the stored primes (`Stored L p (q, u)`: `30 ≤ q < 2^25`, `sievingPrime_ = q/30`, packed state denotes `q·u`).
+    Afterwards: a bit is set iff it was set and is no multiple `q·t` (`u ≤ t < u'`, `t` coprime to 30) of a stored prime, and every
+    packed state written back is `Stored` relative to the NEXT segment — the object invariant is inductive over segments. -/
+theorem medium_segment_correct (L : ℕ) (hL : 30 ∣ L) (ps : Array SPrime) (gs : List (ℕ × ℕ)) (s : Bytes) (hs : s.size ≤ 2 ^ 23)
+    (h : List.Forall₂ (Stored L) ps.toList gs) :
+    ∃ gs' : List (ℕ × ℕ),
+      List.Forall₂ (fun g g' => g'.1 = g.1 ∧ g.2 ≤ g'.2) gs gs' ∧
+      List.Forall₂ (Stored (L + 30 * s.size)) (mediumCrossOff ps s).1.toList gs' ∧
+      (∀ b, bitAt (mediumCrossOff ps s).2 b = true ↔
+        (bitAt s b = true ∧ ∀ i, i < gs.length → ¬ Hit 30 (gs.getD i (0, 0)).1 L (gs.getD i (0, 0)).2 (gs'.getD i (0, 0)).2 b)) ∧
+      (mediumCrossOff ps s).2.size = s.size :=
+  mediumCrossOff_spec L hL ps gs s hs h
+
+/-- **Counting** (`CountPrintPrimes::countPrimes`): the popcount sum over the `⌈size/8⌉` words of the array (zero padding included)
+    is the number of set bits. -/
+theorem count_segment_correct (s : Bytes) (hs : ∀ i, s.getD i 0 < 256) :
+    sieveCount s = Pc.Sieve.cnt (fun p => bitAt s p) 0 (64 * ((s.size + 7) / 8)) := sieveCount_spec s hs
+
 /-- **One visit of EratBig** (`wheel210`, bucket scheduling): the bit of the pending multiple `q·u` — and only that bit — is
     cleared, and the state pushed to bucket list `segment` denotes the NEXT multiple with cofactor coprime to 210, relative to the
     segment `segment` positions ahead of the current one. -/
@@ -128,6 +149,18 @@ example : ∃ mi wi, wheelAdd wheel30 1000000 173 30000 = some (mi, wi) ∧ Pos 
 example : wheelAdd wheel30 1000000 173 30000 = some (32, 47) := by decide
 example : wheelAdd wheel210 30500 173 30000 = none := by decide
 example : (SPrime.set 5 32 47).idx = 32 + 47 * 2 ^ 23 := by decide
+example : sieveCount #[0xff, 0xef] = 15 := by decide
+/-- `Stored` is satisfiable: the state `wheelAdd` produces for 173 at `L = 30000`, packed -/
+example : Stored 30000 (SPrime.set (173 / 30) 32 47) (173, 179) := by
+  obtain ⟨mi, wi, h1, h2⟩ := (add_sieving_prime_first_multiple_30 1000000 173 30000 (by decide) (by decide) (by decide)
+    (by decide) (by decide) (by decide)).2.1 (by decide)
+  have e : wheelAdd wheel30 1000000 173 30000 = some (32, 47) := by decide
+  rw [e] at h1
+  have hmi : mi = 32 := by injection h1 with h; exact (Prod.mk.inj h).1.symm
+  have hwi : wi = 47 := by injection h1 with h; exact (Prod.mk.inj h).2.symm
+  subst hmi; subst hwi
+  obtain ⟨a, b, c⟩ := sprime_roundtrip (173 / 30) 32 47 (by decide) (by decide) (by decide)
+  exact ⟨by decide, by decide, a, by rw [b, c]; exact h2⟩
 example : sievePrimes #[0xff, 0xef] 1 0 0 = [7, 11, 13, 17, 19, 23, 29, 31, 37, 41, 43, 47, 53, 59, 61] := by decide
 
 end Pc.C18Core
@@ -143,3 +176,5 @@ end Pc.C18Core
 #print axioms Pc.C18Core.big_visit_correct
 #print axioms Pc.C18Core.extraction_word_correct
 #print axioms Pc.C18Core.extraction_segment_correct
+#print axioms Pc.C18Core.medium_segment_correct
+#print axioms Pc.C18Core.count_segment_correct
